@@ -186,48 +186,7 @@ func runC06(r *Run) {
 	r.Expect("C06.1", 9, "summary computation obligations")
 
 	recomputeAfterMutation(r, "C06.3", []string{"recompute"})
-	// in-place merges into proofs held by a kernel view
-	for _, fn := range tmiFuncs(w) {
-		a := w.A(fn)
-		for i, m := range a.CallsTo("gcrypto.CommonMessageSignatureProof.MergeSparse", "gcrypto.CommonMessageSignatureProof.Merge", "gcrypto.CommonMessageSignatureProof.AddSignature") {
-			recv := a.sh.Of(CallArg(m, 0)).String()
-			// receiver is an element of a kState view's proof map (not a clone, not a freshly built proof)
-			if !viewProofElem.MatchString(recv) || strings.Contains(recv, ".Clone(") {
-				continue
-			}
-			con := fmt.Sprintf("%s#inplace-merge%d", FuncName(fn), i+1)
-			// paths on which the merge is known not to have added signatures need no recomputation
-			var noInc []Edge
-			for _, b := range a.blocks() {
-				if len(b.Instrs) == 0 {
-					continue
-				}
-				if ifi, ok := b.Instrs[len(b.Instrs)-1].(*ssa.If); ok && len(b.Succs) == 2 {
-					p := NormPred(a.sh.Of(ifi.Cond))
-					if p.Op == "" && strings.Contains(p.L.String(), ".IncreasedSignatures") {
-						succ := 1
-						if p.Neg {
-							succ = 0
-						}
-						noInc = append(noInc, Edge{b, succ})
-					}
-				}
-			}
-			ok, wit := AllPathsAfterHitE(m, func(x ssa.Instruction) bool {
-				c := callCommon(x)
-				if c == nil {
-					return false
-				}
-				_, cn := calleeName(c)
-				return cn == "tmconsensus.VoteSummary.SetPrecommitPowers" || cn == "tmconsensus.VoteSummary.SetPrevotePowers"
-			}, noInc)
-			det := "an in-place merge into a proof held by a kernel view changes its signer set; the view's vote summary must be recomputed before the function returns (receiver " + truncate(recv, 80) + ")"
-			if wit != nil {
-				det += "; return at " + w.InstrPos(wit)
-			}
-			r.Check(ok, "C06.3", con, w.InstrPos(m), det)
-		}
-	}
+	inPlaceMergeRule(r, "C06.3")
 
 	// ---------- C06.4 threshold coherence
 	n := 0
@@ -337,4 +296,67 @@ func inMapRangeLoop(in ssa.Instruction) bool {
 		}
 	}
 	return false
+}
+
+// inPlaceMergeRule (C06.3 / C09.10): a merge into a proof that is held by a kernel view (not a clone)
+// changes kernel state on the spot; it must be followed on every path by the recomputation of the
+// summary (and, for C09, it must not happen on paths that reject the input: a rejected replay that
+// already mutated the live proof wedges the mirror).
+func inPlaceMergeRule(r *Run, rule string) {
+	w := r.W
+	// in-place merges into proofs held by a kernel view
+	for _, fn := range tmiFuncs(w) {
+		a := w.A(fn)
+		for i, m := range a.CallsTo("gcrypto.CommonMessageSignatureProof.MergeSparse", "gcrypto.CommonMessageSignatureProof.Merge", "gcrypto.CommonMessageSignatureProof.AddSignature") {
+			recvShape := a.sh.Of(CallArg(m, 0))
+			recv := recvShape.String()
+			// receiver is (on some path) an element of a kState view's proof map itself — not a clone of
+			// it, not a freshly built proof
+			live := false
+			alts := []*Shape{recvShape}
+			if recvShape.K == "phi" {
+				alts = recvShape.A
+			}
+			for _, alt := range alts {
+				if as := alt.String(); viewProofElem.MatchString(as) && !strings.Contains(as, ".Clone(") {
+					live = true
+				}
+			}
+			if !live {
+				continue
+			}
+			con := fmt.Sprintf("%s#inplace-merge%d", FuncName(fn), i+1)
+			// paths on which the merge is known not to have added signatures need no recomputation
+			var noInc []Edge
+			for _, b := range a.blocks() {
+				if len(b.Instrs) == 0 {
+					continue
+				}
+				if ifi, ok := b.Instrs[len(b.Instrs)-1].(*ssa.If); ok && len(b.Succs) == 2 {
+					p := NormPred(a.sh.Of(ifi.Cond))
+					if p.Op == "" && strings.Contains(p.L.String(), ".IncreasedSignatures") {
+						succ := 1
+						if p.Neg {
+							succ = 0
+						}
+						noInc = append(noInc, Edge{b, succ})
+					}
+				}
+			}
+			ok, wit := AllPathsAfterHitE(m, func(x ssa.Instruction) bool {
+				c := callCommon(x)
+				if c == nil {
+					return false
+				}
+				_, cn := calleeName(c)
+				return cn == "tmconsensus.VoteSummary.SetPrecommitPowers" || cn == "tmconsensus.VoteSummary.SetPrevotePowers"
+			}, noInc)
+			det := "an in-place merge into a proof held by a kernel view changes its signer set; the view's vote summary must be recomputed before the function returns (receiver " + truncate(recv, 80) + ")"
+			if wit != nil {
+				det += "; return at " + w.InstrPos(wit)
+			}
+			r.Check(ok, rule, con, w.InstrPos(m), det)
+		}
+	}
+
 }
